@@ -104,7 +104,7 @@ Lemma add_timer now j r c : GInv now c -> ttl_ok r -> 0 <= j < 20 ->
     (if add_rearms now j r c then Some (hd now (triggers now j (r_ttl r))) else c_timer c) /\
   (add_rearms now j r c = true -> now < hd now (triggers now j (r_ttl r))).
 Proof.
-  intros G Ht Hj. unfold add, add_rearms. destruct (scan r [] (c_entries c)) as [kept sg].
+  intros G Ht Hj. unfold add, add_rearms. rewrite !rearm_match. destruct (scan r [] (c_entries c)) as [kept sg].
   destruct (r_ttl r =? 0)%N eqn:E0; cbn [negb andb fst c_timer]; [split; [reflexivity|discriminate]|].
   assert (H1 : (1 <= r_ttl r <= TTL_MAX)%N) by (unfold ttl_ok in Ht; apply N.eqb_neq in E0; lia).
   rewrite (triggers_value now j (r_ttl r) Ht).
